@@ -1002,6 +1002,23 @@ int main(int argc, char** argv)
       if (r == ERROR_SUCCESS) fprintf(out, ",\"num_rules\":%u,\"num_strings\":%u", rulesets[rr]->num_rules, rulesets[rr]->num_strings);
       fputs("}\n", out);
     }
+    else if (!strcmp(op, "loadstream2"))
+    {
+      /* loadstream2 <r1> <r2> <path>: two rule sets read one after the other from ONE stream that holds two images back to back
+         (a loader must consume exactly its own image) */
+      NEED(3);
+      int r1 = slot(tok[1], MAXSLOT), r2 = slot(tok[2], MAXSLOT);
+      STRM s = {fopen(tok[3], "rb"), 0, 1, 0, 0};
+      if (!s.f) die("cannot open %s", tok[3]);
+      YR_STREAM st; st.user_data = &s; st.read = strm_read; st.write = NULL;
+      int a = yr_rules_load_stream(&st, &rulesets[r1]);
+      long pos1 = ftell(s.f);
+      if (a != ERROR_SUCCESS) rulesets[r1] = NULL;
+      int b = yr_rules_load_stream(&st, &rulesets[r2]);
+      if (b != ERROR_SUCCESS) rulesets[r2] = NULL;
+      fclose(s.f);
+      fprintf(out, "{\"e\":\"Load2\",\"ret1\":%d,\"pos1\":%ld,\"ret2\":%d}\n", a, pos1, b);
+    }
     else if (!strcmp(op, "prefixsweep") || !strcmp(op, "corrupt"))
     {
       /* prefixsweep <path> <lo> <hi> <chunked 0|1>      : load every prefix n in [lo, hi) of the file
